@@ -25,7 +25,8 @@ RULE = (
     "reduced notation (basic/extended, calendar/ordinal/week, expanded years, "
     "hh / hhmm / hhmmss, zones none/Z/+-hh/+-hhmm/+-hh:mm) with 0-3 offsets "
     "of either sign spelled --offset=, -s, --offset1 or as a bare -P... "
-    "value, under --calendar / ISODATETIMECALENDAR / --utc / ref: the output "
+    "value (in designator notation, or the alternative P[YYYY]-[MM]-[DD]T... "
+    "notation when the values fit it), under --calendar / ISODATETIMECALENDAR / --utc / ref: the output "
     "must equal our own encoder applied, in the input's notation (or in the "
     "notation of a given --print-format: ISO dump syntax with template or "
     "literal zones, or strftime directives), to the fields shifted on "
@@ -450,7 +451,8 @@ def st_offsets(draw, decimal_arg, maxn=3):
     offs = []
     for _ in range(n):
         sign = draw(st.sampled_from([1, 1, -1]))
-        kind = draw(st.sampled_from(["exact", "exact", "nominal", "mixed"]))
+        kind = draw(st.sampled_from(["exact", "exact", "nominal", "mixed",
+                                     "small"]))
         if decimal_arg:
             dkw = draw(st.sampled_from([{"days": 1}, {"days": 40}, {"months": 1},
                                         {"years": 1}, {"weeks": 2}]))
@@ -459,6 +461,17 @@ def st_offsets(draw, decimal_arg, maxn=3):
                 max_days=draw(st.sampled_from([1, 3, 40, 400])), signs="pos"))
             if not any(dkw.values()):
                 dkw = {"hours": 1}
+        elif kind == "small":
+            # values inside the carry-over limits of the alternative
+            # (date-time-like) duration notation, so that spelling can be used
+            dkw = {}
+            for u, top in (("years", 3), ("months", 12), ("days", 30),
+                           ("hours", 24), ("minutes", 60), ("seconds", 60)):
+                if draw(st.integers(0, 2)) == 0:
+                    dkw[u] = draw(st.one_of(st.integers(0, top),
+                                            st.sampled_from([1, top])))
+            if not any(dkw.values()):
+                dkw = {"days": 1}
         elif kind == "nominal":
             dkw = draw(st.sampled_from([{"months": 1}, {"months": 11},
                                         {"months": 13}, {"years": 1},
@@ -471,12 +484,33 @@ def st_offsets(draw, decimal_arg, maxn=3):
     return offs
 
 
+ALT_TOP = {"years": 9999, "months": 12, "days": 30, "hours": 24, "minutes": 60,
+           "seconds": 60}
+
+
+def alt_offset_text(dkw, ext=True):
+    """The duration in the alternative ISO 8601 notation P[YYYY]-[MM]-[DD]
+    T[hh]:[mm]:[ss] (None when a value is outside its carry-over limit)."""
+    if any(k not in ALT_TOP or not isinstance(v, int) or not 0 <= v <= ALT_TOP[k]
+           for k, v in dkw.items()):
+        return None
+    g = lambda k: dkw.get(k, 0)     # noqa: E731
+    ds, ts = ("-", ":") if ext else ("", "")
+    text = "P%04d%s%02d%s%02d" % (g("years"), ds, g("months"), ds, g("days"))
+    if g("hours") or g("minutes") or g("seconds") or not ext:
+        text += "T%02d%s%02d%s%02d" % (g("hours"), ts, g("minutes"), ts,
+                                       g("seconds"))
+    return text
+
+
 def spell_offsets(draw, offs, which=1):
     """argv fragments for the offsets (various documented spellings)."""
     out = []
     for sign, dkw in offs:
-        text = ("-" if sign < 0 else draw(st.sampled_from(["", "", "+"]))) + \
-            offset_text(dkw)
+        body = offset_text(dkw)
+        if alt_offset_text(dkw) and draw(st.booleans()):
+            body = alt_offset_text(dkw, draw(st.booleans()))
+        text = ("-" if sign < 0 else draw(st.sampled_from(["", "", "+"]))) + body
         if which == 2:
             style = draw(st.sampled_from(["--offset2=", "-2"]))
         else:
